@@ -40,7 +40,7 @@ CLAIMED = {
                 "pyarrow's conversion (re-measured each run on the installed pyarrow), schema-argument acceptance and batch acceptance of the "
                 "real library vs the model on the whole grid. Oracle: whole grid × optional/required, 10 schema-argument variants × fresh / "
                 "reused handle × schema id, 8 record shapes in two-record batches; accepted → read back exactly through same and fresh "
-                "handle incl. per-column filtered scans; rejected → snapshots, rows and reachable files unchanged.",
+                "handle incl. per-column filtered scans; rejected → snapshots, rows and reachable files unchanged. all_queued_appends_committed / queued_appends_exact — every file of every append queued in one transaction reaches the commit in queue order (TxOps model of the partition loop; witness last_append_only_loses_rows; tie tx.partition); oracle also: large appends (999–4321 rows), multi-operation transactions, pre-built files with the same base name / offered again after a rejection, the handle's state after a rejected append.",
         "design_ref": "§6 C11",
         "note": "Values are abstracted to value classes; what 'exactly as supplied up to the declared type's representation' means per type is "
                 "the harness function represents() (tz-aware datetimes keep their instant; bytes↔str, int→float when exactly representable). "
@@ -112,7 +112,7 @@ CLAIMED = {
                 "before effect, exception after effect on object storage, KeyboardInterrupt; SystemExit in thorough) at EVERY storage and lock "
                 "call of append / delete-files / expire / delete-snapshot commits on local, CAS-S3 and non-CAS S3, context-manager and explicit "
                 "style; after each run an independent re-read of every retained snapshot, pre/post classification, fate of the transaction's "
-                "files, follow-up append; outcome triple compared with cf.outcome.",
+                "files, follow-up append; outcome triple compared with cf.outcome. body_failure_never_commits — however the body of a with-block fails (Exception or interrupt) __exit__ never commits; reuse_deletes_only_own_attempt — a re-begun Transaction deletes on a clean failure exactly the files of THAT attempt (+ witnesses for the Exception-only exit and the missing reset); ties cf.exit / cf.reuse; oracle also: the metadata lock is released on every way out, non-OSError store errors, interrupt inside the with-body, reuse after an ambiguous commit.",
         "design_ref": "§6 C04",
         "note": "Faults are injected at storage/lock call boundaries (an interrupt between two bytecodes of pure bookkeeping is equivalent to one "
                 "at the next boundary); double faults are not enumerated.",
@@ -139,7 +139,7 @@ CLAIMED = {
                 "metadata_first_refuted — machine-checked witness of the defect found (metadata read before marker load), replayed on the real "
                 "collector under the scheduler, then repaired. Tie: real garbage_collect × 1–2 real transactions with aged data files, "
                 "rollbacks, at storage-operation granularity; the abstract trace replayed on the model must yield the same deleted set; oracle: "
-                "every file of every snapshot of the final metadata exists.",
+                "every file of every snapshot of the final metadata exists. prebuilt_unmarked_refuted — witness of the repaired defect c834a8f (a pre-built file queued without a marker is deleted and then committed); sweeps: whole collection after each gated operation of a commit at grace 0 (append, partial delete, failed marker write, pre-built file flat / nested), of a retrying commit, two collections around one long transaction, aged markers.",
         "design_ref": "§6 C06",
         "note": "Assumes the grace period exceeds the run and a live transaction is younger than the abandonment timeout; file names are fresh.",
         "technique": "Lean 4 invariant over the collector×transactions transition system + trace replay of scheduled real executions",
@@ -221,7 +221,7 @@ CLAIMED = {
                 "lifted by induction to every history. repoint_correct for every forest incl. cycles/dangling parents; current_never_expired; "
                 "mlog_bounded; rewrite_preserves_origin + delete-exactness; last_seq_monotone. Correspondence: the real repoint / retention / "
                 "expiry / delete_snapshot / metadata-log code vs the model on all forests ≤3 (4 sampled) and on whole real-table histories "
-                "step by step; an independent invariant checker reads the JSON and manifests after every step.",
+                "step by step; an independent invariant checker reads the JSON and manifests after every step. all_queued_deletes_applied / queued_deletes_exact / one_commit_shape — every path of every delete queued in one transaction is deleted, nothing else, and a transaction is committed in one shape (tx.partition tie); mlog_trimmed for a lowered bound; oracle also: retried commits, commits under a stale pointer, rewrite of a rewritten manifest, deleting current / oldest / interior snapshots then committing, retention under a clock stepping back, any-clock timestamp lookups.",
         "design_ref": "§6 C15",
         "note": "Snapshot ids assumed fresh (random 63-bit ids). Manifest-rewrite model is at entry level; Avro encoding observed via the independent reader.",
         "technique": "Lean 4 invariant by induction over operations (WF) + algebraic theorems; model/implementation correspondence on histories",
